@@ -96,20 +96,17 @@ def check_theorems(pid, work, log):
 def check_kernels(pid, work, log):
     """Regenerate Gen/Kernels.v from /repo's current source and re-prove the tie lemmas."""
     spec = PROPS[pid]
-    if not spec.get("kernels"):
-        return {"obligations": 0, "discharged": 0, "failed": []}
-    from . import translate, translate2, translate3
     res = {"obligations": 0, "discharged": 0, "failed": []}
     gen = C.ensure_dir(os.path.join(work, "Gen"))
-    stages = [("Kernels.v", translate.generate, "Tie.v")]
-    if spec.get("methods"):
-        stages.append(("Methods.v", translate2.generate, "TieMethods.v"))
-    if spec.get("rangemap"):
-        stages.append(("RangeMap.v", translate3.generate, "TieRangeMap.v"))
-    if spec.get("builder"):
-        stages.append(("BuilderGen.v", translate2.generate_builder, "TieBuilder.v"))
-    if spec.get("ctors"):
-        stages.append(("Ctors.v", translate2.generate_ctors, "TieCtors.v"))
+    # every harness/translate*.py lists its stages: (propdef flag, generated file, generator, tie-lemma file)
+    stages = []
+    for path in sorted(glob.glob(os.path.join(os.path.dirname(os.path.abspath(__file__)), "translate*.py"))):
+        mod = importlib.import_module("harness." + os.path.basename(path)[:-3])
+        for (flag, gfile, genfn, tie) in getattr(mod, "STAGES", []):
+            if spec.get(flag):
+                stages.append((gfile, genfn, tie))
+    if not stages:
+        return res
     files, names = [], []
     for (gfile, genfn, tie) in stages:
         try:
